@@ -64,16 +64,16 @@ func simJobs(keys ...string) []Job {
 }
 
 type Property struct {
-	ID       string
-	Level    string // proof | other
-	Jobs     []Job
-	Kinds    map[string]bool // nil: all kinds
-	Labels   []string        // ensures labels that belong to this property (besides unlabelled)
-	Extra    []string        // extra global drivers: "global-store-scan", "tables:C13"
-	Assume   []string
-	Explain  string
-	Trusted  []string
-	Subset   string
+	ID      string
+	Level   string // proof | other
+	Jobs    []Job
+	Kinds   map[string]bool // nil: all kinds
+	Labels  []string        // ensures labels that belong to this property (besides unlabelled)
+	Extra   []string        // extra global drivers: "global-store-scan", "tables:C13"
+	Assume  []string
+	Explain string
+	Trusted []string
+	Subset  string
 }
 
 var commonTrusted = []string{
@@ -144,8 +144,8 @@ func properties() map[string]*Property {
 		Subset: "memory safety (index, slice, nil, division), termination (measure per cut point) and `err == nil ==> 0 <= p <= len(data)` for every function under contract; handler offsets that would move the position outside the input are an error",
 	}
 	ps["C09"] = &Property{ID: "C09", Level: "proof",
-		Jobs:  hostile("handleArrayValues", "handleObjectValues", "HandleArrayValues", "HandleObjectValues"),
-		Kinds: map[string]bool{"err-identity": true, "inv-init": true, "inv-preserved": true, "ensures": true, "requires@call": true},
+		Jobs:   hostile("handleArrayValues", "handleObjectValues", "HandleArrayValues", "HandleObjectValues"),
+		Kinds:  map[string]bool{"err-identity": true, "inv-init": true, "inv-preserved": true, "ensures": true, "requires@call": true},
 		Labels: []string{"C09"},
 		Assume: []string{"handlers return arbitrary (p, err)"},
 	}
@@ -196,9 +196,9 @@ func properties() map[string]*Property {
 		Subset: "(a) no function under contract stores into an input region (every store and in-place append has a frame obligation), and no function of the module stores into package-level memory; (b) destination-taking functions return, on success, a slice whose prefix is the destination's prior contents (ReadStringBytes, UnescapeStringContent, unescapeStringContent, appendRemainderOfString, unescapeUnicodeChar, growBytesSliceCapacity); (c) every returned string is the result of a []byte->string conversion. (d) results of the Buffer-taking functions do not depend on the Buffer's stack slice (the relational proofs of C14, repeated here). NOT proved: equality of the appended suffix with the empty-destination output (bounded stand-in only), independence of ReadString from the prior contents of *buf, and value trees (reason as for C15)",
 	}
 	ps["C18"] = &Property{ID: "C18", Level: "proof",
-		Jobs:   framesOnly(allContractFns()...),
-		Kinds:  map[string]bool{"frame": true},
-		Extra:  []string{"global-store-scan"},
+		Jobs:  framesOnly(allContractFns()...),
+		Kinds: map[string]bool{"frame": true},
+		Extra: []string{"global-store-scan"},
 		Assume: []string{
 			"M-frame (not machine-checked): calls whose write footprints are disjoint and that read only immutable shared memory are race-free and sequentially equivalent (frame rule); interleavings are not explored and nothing is run under the race detector",
 			"package-level tables and error sentinels are written only by package initialisation, which happens before main",
